@@ -151,7 +151,9 @@ def _apply_effect_contract(eng, st, args, kw):
             has, val = z3.BoolVal(False), PRE(g)
         base = z3.If(has, val, PRE(g))
         amount = AMOUNT(e)
-        newnum = MKNUM(z3.If(_kind(e) == EK[_EK.INCREASE], numval(base) + numval(amount), numval(base) - numval(amount)))
+        newval = z3.If(_kind(e) == EK[_EK.INCREASE], numval(base) + numval(amount), numval(base) - numval(amount))
+        newnum = MKNUM(newval)
+        s.assume(is_num(newnum), numval(newnum) == newval)
         v = z3.If(_kind(e) == EK[_EK.ASSIGN], amount, newnum)
         yield s, s.alloc(CDict({T.FNode.wrap(g): T.FNode.wrap(v)}), "dict")
 
@@ -172,15 +174,16 @@ class ApplyEffectsPair(Unit):
         x = z3.Real("x!mk")
         a, b = z3.Const("a!c04", _F), z3.Const("b!c04", _F)
         C = OKT.consts
-        eng.axioms += [z3.ForAll([x], z3.And(is_num(MKNUM(x)), numval(MKNUM(x)) == x), patterns=[MKNUM(x)]),
-                       # canonical constants (C16): equal values are the same node
-                       z3.ForAll([a, b], z3.Implies(z3.And(node_type(a) == C[OK.BOOL_CONSTANT], node_type(b) == C[OK.BOOL_CONSTANT], _pb(a) == _pb(b)), a == b),
-                                 patterns=[z3.MultiPattern(_pb(a), _pb(b))]),
-                       z3.ForAll([a, b], z3.Implies(z3.And(node_type(a) == C[OK.INT_CONSTANT], node_type(b) == C[OK.INT_CONSTANT], _pi(a) == _pi(b)), a == b),
-                                 patterns=[z3.MultiPattern(_pi(a), _pi(b))]),
-                       z3.ForAll([a, b], z3.Implies(z3.And(node_type(a) == C[OK.REAL_CONSTANT], node_type(b) == C[OK.REAL_CONSTANT], _pr(a) == _pr(b)), a == b),
-                                 patterns=[z3.MultiPattern(_pr(a), _pr(b))]),
-                       z3.ForAll([a], z3.Implies(node_type(a) == C[OK.REAL_CONSTANT], z3.Not(z3.IsInt(_pr(a)))), patterns=[_pr(a)])]
+        MKB = z3.Function("bool_constant_of", z3.BoolSort(), _F)
+        _po = B._uf("FNode.payload.OBJECT_EXP", _F, T.Object.z3sort())
+        MKO = z3.Function("object_expression_of", T.Object.z3sort(), _F)
+        eng.axioms += [  # (facts about constant_of(x) are assumed where the contract of _apply_effect creates such a term: a global axiom would
+                       #  feed the canonical-constant axioms below and instantiate for ever)
+                       # canonical constants (hash-consing + numeric normalisation, C16): a constant node is determined by its value
+                       z3.ForAll([a], z3.Implies(node_type(a) == C[OK.INT_CONSTANT], a == MKNUM(z3.ToReal(_pi(a)))), patterns=[_pi(a)]),
+                       z3.ForAll([a], z3.Implies(node_type(a) == C[OK.REAL_CONSTANT], a == MKNUM(_pr(a))), patterns=[_pr(a)]),
+                       z3.ForAll([a], z3.Implies(node_type(a) == C[OK.BOOL_CONSTANT], a == MKB(_pb(a))), patterns=[_pb(a)]),
+                       z3.ForAll([a], z3.Implies(node_type(a) == C[OK.OBJECT_EXP], a == MKO(_po(a))), patterns=[_po(a)])]
 
         def make_child(eng_, st, selfv, args, kw):
             st.ghost["child_updates"] = eng_.deref(st, kw.get("updated_values", args[0] if args else None))
